@@ -272,6 +272,7 @@ type FuncSpec struct {
 	CallUses   map[string]string // "callee#k" -> variant name used at that call site
 	NoSafety   bool
 	NoInherit  bool
+	Aspect     bool
 	AliasParams []string // parameter names of the refined type contract (positional aliases)
 	Captured   []*Clause // facts about immutable captured variables: checked where the closure is created, assumed at its entry
 	File       string
